@@ -38,10 +38,13 @@ RULE = ("corpus/C09 hand seeds first; join: 2-5 generated inputs (1-6 events "
         "frame for time), an occasional extra feature, dates over 6 days incl. "
         "month/year/leap boundaries, times within 4 s with fractions '', .000, "
         ".125 ... .875, .50, .500, run indices 1,2,3,9,10,11,100, frame rates "
-        "0.125..2000 (round-half-even cases), 0-2 logs per input; split: "
+        "0.125..2000 (round-half-even cases), 0-2 logs per input, in 45% of "
+        "the cases 2-3 inputs share date/time/run index, file names are "
+        "random words handed out in non-alphabetical order; split: "
         "N=1..12, split sizes 1, 2, 3, divisors, N-1, N, N+1, 2N, optional "
         "image feature with all-zero first/last/inner image, both skip flags; "
-        "joinsplit: the parts of a split joined in order; pysem: the Python "
+        "joinsplit: the parts of a split, renamed to words that are not in "
+        "alphabetical order, joined in the order of the split; pysem: the Python "
         "semantics of Common/PyList.v (mutating loop, loop over a copy, str "
         "<=, sorted stability, round, str(int), mktime) against the "
         "interpreter. A case is non-trivial when (join) at least two inputs "
@@ -138,6 +141,24 @@ PRECURSORS = {"deform": ["circ"], "aspect": ["size_x", "size_y"],
               "area_ratio": ["area_cvx", "area_msd"]}
 
 
+NAME_WORDS = ["alpha", "bravo", "zulu", "mike", "part_one", "part_two",
+              "part_three", "part_four", "x9", "x10", "B", "a", "m_2", "m_10",
+              "omega", "delta", "kilo", "run", "Run", "z0"]
+
+
+def gen_names(rng, k):
+    """k distinct file stems whose alphabetical order is (almost always) not
+    the order in which they are handed out"""
+    names = rng.sample(NAME_WORDS, k)
+    r = rng.random()
+    if r < 0.4:
+        names = sorted(names, reverse=True)
+    elif r < 0.5:
+        names = sorted(names)
+    return names
+
+
+
 def gen_input(rng, names, n, date, tm, run, rate, logs=True):
     feats = {f: gen_column(rng, f, n) for f in sorted(names)}
     lg = {}
@@ -193,6 +214,16 @@ def gen_join_case(rng, thorough=False):
             tm = "%02d:59:59%s" % (rng.choice([0, 9, 23]), rng.choice(FRACS))
         inputs.append(gen_input(rng, names, rng.randint(1, 6),
                                 rng.choice(DATES), tm, rng.choice(RUNS), rate))
+    # ties: two or more inputs with the same date, time and run index (the
+    # given order must be kept, whatever the file names are)
+    if rng.random() < 0.45:
+        grp = rng.sample(range(k), rng.randint(2, min(k, 3)))
+        src = inputs[grp[0]]
+        for i in grp[1:]:
+            inputs[i].update(date=src["date"], time=src["time"],
+                             run=src["run"])
+    for inp, nm in zip(inputs, gen_names(rng, k)):
+        inp["fname"] = nm
     return dict(kind="join", inputs=inputs)
 
 
@@ -236,7 +267,9 @@ def gen_joinsplit_case(rng, thorough=False):
     inp = gen_input(rng, names, n, rng.choice(DATES),
                     "12:00:%02d%s" % (rng.randint(0, 59), rng.choice(FRACS)),
                     rng.choice(RUNS), rng.choice(RATES_DYADIC_TIME))
-    return dict(kind="joinsplit", input=inp, k=k)
+    nparts = -(-n // k)
+    return dict(kind="joinsplit", input=inp, k=k,
+                rename=gen_names(rng, min(nparts, len(NAME_WORDS))))
 
 
 # --------------------------------------------------------------------------
@@ -468,8 +501,9 @@ def _short(a):
 def exec_join(case, wd):
     from dclab.cli import join
     inputs = case["inputs"]
-    paths = [write_input(os.path.join(wd, "in%d.rtdc" % i), inp)
-             for i, inp in enumerate(inputs)]
+    paths = [write_input(os.path.join(
+        wd, "%s.rtdc" % inp.get("fname", "in%d" % i)), inp)
+        for i, inp in enumerate(inputs)]
     infos = [read_dataset(p) for p in paths]
     coq = common.clist([render_meas(i, f) for i, f in zip(inputs, infos)])
     path_out = os.path.join(wd, "out.rtdc")
@@ -496,6 +530,11 @@ def exec_join(case, wd):
         tags.append("join:differing-feature-sets")
     if len(set(acq)) < len(acq):
         tags.append("join:time-ties")
+    keys = [(a, i["run"]) for a, i in zip(acq, inputs)]
+    names = [os.path.basename(p) for p in paths]
+    if any(keys[a] == keys[b] and names[a] > names[b]
+           for a in range(len(keys)) for b in range(a + 1, len(keys))):
+        tags.append("join:key-ties-against-path-order")
     if any(len(i["time"]) > 8 for i in inputs):
         tags.append("join:fractional-seconds")
     if any(set(f["avail"]) - set(f["innate"]) - {"index"} for f in infos):
@@ -661,6 +700,15 @@ def exec_joinsplit(case, wd):
             # join needs two inputs: nothing to compare
             return dict(impl=None, coq=None, fn=None, fail=None, finding=None,
                         nontrivial=False, tags=["joinsplit:single-part"])
+        ren = case.get("rename") or []
+        if len(ren) == len(paths):
+            # the parts, renamed so that their names are not in order
+            newp = []
+            for pth, nm in zip(paths, ren):
+                q = os.path.join(outdir, nm + ".rtdc")
+                os.rename(str(pth), q)
+                newp.append(q)
+            paths = newp
         join(paths_in=[str(p) for p in paths], path_out=path_out)
     except Exception as e:
         fail = "join(split(ds, %d)) raised %s: %s" % (
